@@ -161,6 +161,17 @@ Proof.
   split; [repeat constructor; simpl; discriminate|]. split; [simpl; repeat constructor; simpl; intuition discriminate|].
   simpl. repeat constructor.
 Qed.
+(* a 5-point insert-only build with degree bound 8, search size 10: n = 5 <= min(8, 9) *)
+Definition ex_P8 := mkParams 8 (12 # 10) 10.
+Definition ex_io5 : list (list (N * option exV)) :=
+  [ [(2%N, Some (0, 0)%Z); (3%N, Some (4, 0)%Z); (4%N, Some (1, 1)%Z)]; [(5%N, Some (9, 9)%Z)]; [(6%N, Some (2, 3)%Z)] ].
+Definition ex_gio5 : graph exV :=
+  match run_history ex_d ex_P8 (100, 100)%Z (setup_start (100, 100)%Z empty_graph) ex_io5 with Ok g => g | Err _ => empty_graph end.
+Example ex_c03_io5_wf : wf_b ex_P8 ex_gio5 [2; 3; 4; 5; 6]%N = true /\ length (edges ex_gio5) = 6%nat.
+Proof. vm_compute. split; reflexivity. Qed.
+Example ex_c03_io5_search : ex_show (search ex_d ex_gio5 (2, 2)%Z 3 10 1 None) = Some [(6%N, 1, -1); (4%N, 2, -2); (2%N, 8, -8)]%Q.
+Proof. vm_compute. reflexivity. Qed.
+
 (* DistSet: capacity 2, five offers (one repeated id): the two best, sorted *)
 Example ex_c03_distset :
   map (fun it => (it_id it, it_d it))
